@@ -27,6 +27,13 @@
 (* token to its value, the binding maps it 1:1 to XPath text.  Behaviours  *)
 (* are compositions: reverse(remove(S,2)), (for $x in S[p] return f)[q].   *)
 (*                                                                         *)
+(* Group "focus": evaluation is PURE - the focus (., position(), last())   *)
+(* seen after a sub-expression is the focus before it.  The actions        *)
+(* MapFocus / ForFocus / PredFocus / QuantFocus put a consumer F in        *)
+(* {exists, empty, head, count, some, "="} over an inner filter / map that *)
+(* sets its OWN focus next to a reader of the OUTER focus; F may abandon   *)
+(* the inner iteration early, the definitional value does not care.        *)
+(*                                                                         *)
 (* The operators are the DEFINITIONAL list model of F&O; the laws quoted   *)
 (* by the property relate two independent formulations and are TLC         *)
 (* invariants (Laws).                                                      *)
@@ -45,7 +52,7 @@ CONSTANTS MaxDepth,      \* TLCGet("level") bound: level N = chains of N-1 const
           InitLen,       \* initial sequences have length 0..InitLen
           UniverseName,  \* "u2" | "u3" | "u3n" | "u4" | "u7" | "u9"
           GridName,      \* "small" | "full"
-          Groups         \* subset of {"pos", "range", "iter", "agg", "cat"}
+          Groups         \* subset of {"pos", "range", "iter", "agg", "cat", "focus"}
 
 VARIABLE st
 vars == <<st>>
@@ -465,6 +472,47 @@ ExQuant2(S, q) ==
   LET n == Len(S) IN
   QuantRes(q, [h \in 1..(n * n) |-> VC("lt", S[((h - 1) \div n) + 1], S[((h - 1) % n) + 1])])
 
+
+---------------------------------------------------------------------------
+(* group "focus": purity of the focus.  The evaluation starts with the context item 1 at
+   position 1 of 1 (select(None, expr, item=1)). *)
+CtxItem == IntV(1)
+T456 == <<IntV(4), IntV(5), IntV(6)>>
+Consumers == IF GridName = "full" THEN {"exists", "empty", "head", "count", "some", "geq"} ELSE {"exists", "head", "count"}
+Inners    == IF GridName = "full" THEN {"[. gt 4]", "[. gt 6]", "[position() ge 2]", "! (. + 1)"} ELSE {"[. gt 4]", "! (. + 1)"}
+Readers   == {".", "position()", "last()"}
+(* the inner expression: (4, 5, 6) filtered / mapped, with its own focus *)
+InnerVal(inner) ==
+  CASE inner = "[. gt 4]" -> ExPredItem(T456, "gt", <<IntV(4)>>).s
+    [] inner = "[. gt 6]" -> ExPredItem(T456, "gt", <<IntV(6)>>).s
+    [] inner = "[position() ge 2]" -> ExPredPos(T456, "ge", <<IntV(2)>>).s
+    [] inner = "! (. + 1)" -> ExMap(T456, ". + 1").s
+(* F(V): exists / empty / head / count / some $v in V satisfies $v gt 0 / V = 5 *)
+ConsumerVal(F, V) ==
+  CASE F = "exists" -> FnExists(V).s
+    [] F = "empty"  -> FnEmpty(V).s
+    [] F = "head"   -> FnHead(V).s
+    [] F = "count"  -> FnCount(V).s
+    [] F = "some"   -> <<Bool(\E i \in 1..Len(V) : NumLt(IntV(0), V[i]))>>
+    [] F = "geq"    -> <<Bool(\E i \in 1..Len(V) : NumEq(V[i], IntV(5)))>>
+(* the focus read by R when the focus is (item, pos, size) *)
+ReadFocus(R, item, pos, size) ==
+  CASE R = "." -> <<item>> [] R = "position()" -> <<IntV(pos)>> [] R = "last()" -> <<IntV(size)>>
+(* S ! (F(inner), R): R reads the focus of the simple map *)
+ExMapFocus(S, F, inner, R) ==
+  OK(Concat([i \in 1..Len(S) |-> ConsumerVal(F, InnerVal(inner)) \o ReadFocus(R, S[i], i, Len(S))]))
+(* for $x in S return (F(inner), R): R reads the focus of the whole expression *)
+ExForFocus(S, F, inner, R) ==
+  OK(Concat([i \in 1..Len(S) |-> ConsumerVal(F, InnerVal(inner)) \o ReadFocus(R, CtxItem, 1, 1)]))
+(* S[(F(inner), R)[last()] = k]: R reads the focus of the predicate *)
+ExPredFocus(S, F, inner, R, k) ==
+  FilterTT(S, [i \in 1..Len(S) |-> GC(ReadFocus(R, S[i], i, Len(S))[1], k[1])])
+(* q $x in S satisfies F((. + 1, . + 2)[. lt thr]): the clause reads the OUTER context item for every binding *)
+ExQuantFocus(S, q, F, thr) ==
+  LET V == ExPredItem(<<NumAdd(CtxItem, IntV(1)), NumAdd(CtxItem, IntV(2))>>, "lt", thr).s
+      c == EBV(ConsumerVal(F, V))
+  IN QuantRes(q, [i \in 1..Len(S) |-> c])
+
 ---------------------------------------------------------------------------
 (* universes of items *)
 Sa == Str(<<97>>)
@@ -538,6 +586,12 @@ StringJoinTypeErr    == On("agg") /\ ~AllStr(S) /\ st' = Err("XPTY0004")        
 (* ---- group "cat": the comma operator ---- *)
 Comma(side, T)    == On("cat") /\ st' = OK(IF side = "after" THEN S \o T ELSE T \o S)
 
+(* ---- group "focus": the focus after a sub-expression is the focus before it ---- *)
+MapFocus(F, inner, R)     == On("focus") /\ st' = ExMapFocus(S, F, inner, R)
+ForFocus(F, inner, R)     == On("focus") /\ st' = ExForFocus(S, F, inner, R)
+PredFocus(F, inner, R, k) == On("focus") /\ st' = ExPredFocus(S, F, inner, R, Tok(k, N))
+QuantFocus(q, F, thr)     == On("focus") /\ st' = ExQuantFocus(S, q, F, Tok(thr, N))
+
 Next ==
   \/ \E a \in PredToks : PredNum(a)
   \/ \E op \in PosOps, k \in KToks : PredPos(op, k)
@@ -568,6 +622,10 @@ Next ==
   \/ \E sep \in Seps : StringJoinAny(sep)
   \/ StringJoinTypeErr
   \/ \E side \in {"after", "before"}, T \in CatSeqs : Comma(side, T)
+  \/ \E F \in Consumers, inner \in Inners, R \in Readers : MapFocus(F, inner, R)
+  \/ \E F \in Consumers, inner \in Inners, R \in Readers : ForFocus(F, inner, R)
+  \/ \E F \in Consumers, inner \in {"[. gt 4]", "! (. + 1)"}, R \in Readers, k \in {"1", "2"} : PredFocus(F, inner, R, k)
+  \/ \E q \in {"some", "every"}, F \in Consumers, thr \in {"2", "3", "len+1"} : QuantFocus(q, F, thr)
 
 Spec == Init /\ [][Next]_vars
 
@@ -667,9 +725,22 @@ LawFilter ==
   /\ Len(ExFor2(S, <<Sb, I9>>, "($x, $y)").s) = 4 * N
   /\ ExFor2(S, <<I9>>, "$x") = OK(S)
 
+(* purity: the consumer and the inner expression do not influence what the reader sees *)
+LawFocus ==
+  /\ \A F \in {"exists", "empty", "head", "count", "some", "geq"}, inner \in {"[. gt 4]", "[. gt 6]", "! (. + 1)"} :
+        /\ Pick(ExMapFocus(S, F, inner, ".").s,
+                [h \in 1..Len(ExMapFocus(S, F, inner, ".").s) |->
+                     h % (Len(ConsumerVal(F, InnerVal(inner))) + 1) = 0]) = S          \* the readers alone give S
+        /\ ExPredFocus(S, F, inner, "position()", <<IntV(2)>>) = ExPredConst(S, <<IntV(2)>>)
+        /\ ExPredFocus(S, F, inner, "last()", <<IntV(N)>>) = OK(S)
+        /\ Len(ExForFocus(S, F, inner, ".").s) = N * (Len(ConsumerVal(F, InnerVal(inner))) + 1)
+  /\ \A F \in {"exists", "empty", "head", "count", "some", "geq"}, thr \in {<<IntV(2)>>, <<IntV(3)>>, <<IntV(4)>>} :
+        /\ (N > 0 => ExQuantFocus(S, "every", F, thr) = ExQuantFocus(S, "some", F, thr))   \* the clause does not depend on the binding
+        /\ (N = 0 => (ExQuantFocus(S, "every", F, thr) = OK(<<Bool(TRUE)>>) /\ ExQuantFocus(S, "some", F, thr) = OK(<<Bool(FALSE)>>)))
 NoNodes == \A i \in 1..N : S[i].t # "node"
 (* decided on every sequence that is the SOURCE of a transition (the last level is not expanded) *)
 Laws == (Usable /\ TLCGet("level") < MaxDepth) =>
                   /\ LawSubseq /\ LawReverse /\ LawInsert /\ LawRemove /\ LawHeadTail /\ LawCardinality /\ LawFilter
+                  /\ ("focus" \in Groups => LawFocus)
                   /\ (NoNodes => LawQuantDual /\ LawSum /\ LawMinMax /\ LawIndexOf)   \* the laws about VALUES
 =============================================================================
